@@ -576,7 +576,12 @@ class SymBool(Sym):
         self.e = e
 
     def __bool__(self):
-        return eng().branch(self.e)
+        e = z3.simplify(self.e)
+        if _is_true(e):
+            return True
+        if _is_false(e):
+            return False
+        return eng().branch(e)
 
     def _int(self):
         return SymInt(z3.If(self.e, z3.IntVal(1), z3.IntVal(0)))
@@ -820,7 +825,11 @@ class SymInt(SymNum):
 
     def __mul__(self, o):
         if _num(o) is None:
-            if isinstance(o, (str, bytes, list, tuple)):
+            if isinstance(o, (str, bytes)):
+                from . import tstr
+
+                return tstr.T(o, isinstance(o, bytes)) * self
+            if isinstance(o, (list, tuple)):
                 return o * eng().concretize(self.e)
             return NotImplemented
         return self._bin(
